@@ -14,7 +14,7 @@ RULE = ("call histories over {open, close, read, write, big fragmented read, gen
         "sample plus the first and the last socket operation of every operation of the history) x {send raises, recv raises (reply lost), recv returns EOF, peer vanishes}; after each history faults stop, the driver "
         "is closed, re-opened, used and closed again. Monitors: target-side lifecycle monitor (session before data, Forward Open before connected "
         "data, extended-first/standard-500 order), client-side exception types, step budget, driver.connected and target session/connection "
-        "tables after every close; an open() of a Logix driver during which the fault fired and which still reports success holds the controller's whole tag list. distinct = (driver, history, policy, fault kind, fault position) executed")
+        "tables after every close; a with block whose body ran has called close() when it is left (whatever earlier blocks on that object did); an open() of a Logix driver during which the fault fired and which still reports success holds the controller's whole tag list. distinct = (driver, history, policy, fault kind, fault position) executed")
 ASSUMPTIONS = [
     "connections live in the target until Forward Close, sessions until UnRegisterSession or TCP close; a connection whose Forward Close was destroyed by the injected fault is not counted as a leak",
     "'still reachable' = no fault fired during that close() call and the peer has not vanished",
